@@ -24,6 +24,7 @@ func propC04(c *Ctx) {
 	c.ruleKeyKind()
 	c.ruleLazyErrors()
 	c.ruleSerialiseDepErrors("C04-SERIALISE-DEP-ERRORS")
+	c.ruleSerialiseStatefulRecovered("C04-SERIALISE-STATEFUL-RECOVERED")
 	c.ruleTypedNilError("C04-TYPED-NIL-ERROR") // a nil *JApiError returned as error ends the walk over the user types: the rest is never checked
 	c.ruleRegexChecked()
 	c.rulePathVarTypes()
